@@ -54,7 +54,12 @@ def _args_state(m):
     return [('a', STATE, ()), ('p', 0)]
 
 
+def _args_ip4(m):
+    return [('a', ('G', 'OCT'), (0,)), ('p', 0), END]
+
+
 ENTRIES = {
+    'ip4': ('uriParseIpFourAddress', _args_ip4, False, None),
     'single-mm': ('uriParseSingleUriExMm', _args_single_mm, False, 'ERRPOS'),
     'single-ex': ('uriParseSingleUriEx', _args_single_ex, False, 'ERRPOS'),
     'single-ex-nul': ('uriParseSingleUriEx', _args_single_ex_nul, True, 'ERRPOS'),
@@ -65,7 +70,7 @@ ENTRIES = {
 
 
 def _compute(ctx, suf, entry, monitor_kind, log=None):
-    dfa, info = rfc3986_dfa()
+    dfa, info = rfc3986_dfa('ipv4address' if entry == 'ip4' else 'uri-reference')
     base, mkargs, nul, where = ENTRIES[entry]
     fname = base + suf
     if fname not in ctx.irp.funcs:
@@ -82,8 +87,10 @@ def _compute(ctx, suf, entry, monitor_kind, log=None):
     for (m, st, val, nid) in res.finals:
         if where == 'ERRPOS':
             ep = st.env.get((ERRPOS, ()))
-        else:
+        elif where == 'STATE':
             ep = st.env.get((STATE, ('errorPos',)))
+        else:
+            ep = None
         code2 = st.env.get((STATE, ('errorCode',))) if where == 'STATE' else None
         regs = dict((k[1], v) for k, v in st.env.items() if k[0] == URI)
         finals.append({'m': m, 'ret': val, 'errpos': ep, 'errcode': code2, 'eof': st.eof, 'oom': bool(st.flags.get('oom')),
@@ -98,6 +105,7 @@ def _compute(ctx, suf, entry, monitor_kind, log=None):
            'functions': res.functions, 'max_depth': res.max_depth, 'wall': res.wall, 'dfa': info,
            'regstores': dict(((p, l), sorted(v, key=repr)) for (p, l), v in res.obs_regstores.items()),
            'ip4calls': dict((k, sorted(v, key=repr)) for k, v in res.obs_ip4.items()),
+           'heapstores': dict(((p, l), sorted(v, key=repr)) for (p, l), v in res.obs_heapstores.items()),
            'opaque': sorted(res.obs_opaque), 'free_members_sites': sorted(res.obs_free_members, key=repr),
            'sampled': bool(getattr(res, 'sampled', False)), 'parent': res.parent, 'accept': sorted(dfa.accept), 'dfa_dead': sorted(dfa.dead_states)}
     return out
